@@ -7,7 +7,11 @@ prop("C08",
                 "no injected fault, or a single fault and no free address with a stored object: alloc, free, pools unchanged, "
                 "store unchanged as a map), multi_alloc_failure_general (ANY fault set: every address is untouched or, its "
                 "rollback delete having failed, allocated to the key in BOTH memory and store), "
-                "multi_alloc_failure_single_fault, fact_rollback, multi_alloc_failure_counter (pre-fix shape). IPAM level; the "
+                "multi_alloc_failure_single_fault, fact_rollback, multi_alloc_failure_counter (pre-fix shape); the walk of a "
+                "requested range is the real one: fact_walk_configured (both clamps, ascending sort, delegation to "
+                "walkIPRanges regenerated from walkConfiguredIPRanges), walkConfigured_mem, "
+                "walkConfigured_eq_filter_enumerate (exactly the requested configured addresses, ascending, whatever the "
+                "pool order), walk_unsorted_unclipped_counter. IPAM level; the "
                 "binding-annotation clause is model M4's.",
      level_note="Full on the model. The c08 harness injects a fault at every call index (creates and rollback deletes) and checks "
                 "both clauses on the real code.",
@@ -19,6 +23,6 @@ prop("C08",
      trusted=["tools/factgen/cmd/ipam: syntactic extraction of the rollback loop shape",
               "harness/ipam: client-go fake CRD clientset as API server, decorator for faults"],
      assumptions=["requested range lists pairwise disjoint (the TODO in the code documents the overlapping case as unsupported)",
-                  "configurations passed fipCheck; pools pairwise disjoint as address sets"],
+                  "configurations passed fipCheck; pools pairwise disjoint as address sets (DisjointConf in walkConfigured_eq_filter_enumerate)"],
      timeout={"quick": 600, "thorough": 3600},
      )
